@@ -204,7 +204,9 @@ def _narrow_type_tests(program: Program, f: FuncInfo, test, call, attr, noop):
         return []
     out = []
     term = program.cls("Term")
-    declared = (_declared_classes(program, f.cls, attr) if f.cls is not None and attr else []) or [term]
+    declared = _declared_classes(program, f.cls, attr) if f.cls is not None and attr else []
+    if not declared:
+        return []       # no declaration to measure the test against
     holders = [d for d in program.all_classes() if any(d.is_subclass_of(k) for k in declared) and d.resolve("replace_table") not in (None, noop)]
 
     def rec(t, positive):
@@ -646,16 +648,38 @@ def _narrowed_classes(program: Program, f: FuncInfo, call: ast.Call, recv: ast.e
     if not isinstance(recv, ast.Name):
         return []
     for n in ast.walk(f.node):
-        if isinstance(n, ast.IfExp) and any(x is call for x in ast.walk(n.body)):
+        in_body = isinstance(n, (ast.IfExp, ast.If)) and any(x is call for b in (n.body if isinstance(n.body, list) else [n.body]) for x in ast.walk(b))
+        in_else = isinstance(n, (ast.IfExp, ast.If)) and any(x is call for b in (n.orelse if isinstance(n.orelse, list) else [n.orelse]) for x in ast.walk(b))
+        if in_body or in_else:
             t = n.test
-            if (isinstance(t, ast.Call) and isinstance(t.func, ast.Name) and t.func.id == "isinstance" and len(t.args) == 2
-                    and isinstance(t.args[0], ast.Name) and t.args[0].id == recv.id):
-                spec = t.args[1]
-                elts = spec.elts if isinstance(spec, ast.Tuple) else [spec]
+            if in_else:
+                # `x if not isinstance(x, K) else x.replace_table(..)`: the call sits under the negated test
+                if not (isinstance(t, ast.UnaryOp) and isinstance(t.op, ast.Not)):
+                    continue
+                t = t.operand
+            elts = _isinstance_union(t, recv.id)
+            if elts:
                 out = [program.resolve_expr_class(f.module, e, None) for e in elts]
                 if all(out):
                     return out
     return []
+
+
+def _isinstance_union(t, name: str):
+    """class expressions of `isinstance(<name>, K)`, `isinstance(<name>, (K1, K2))` or an `or` of such tests (None otherwise)"""
+    if isinstance(t, ast.BoolOp) and isinstance(t.op, ast.Or):
+        out = []
+        for v in t.values:
+            r = _isinstance_union(v, name)
+            if not r:
+                return None
+            out += r
+        return out
+    if (isinstance(t, ast.Call) and isinstance(t.func, ast.Name) and t.func.id == "isinstance" and len(t.args) == 2
+            and isinstance(t.args[0], ast.Name) and t.args[0].id == name):
+        spec = t.args[1]
+        return list(spec.elts) if isinstance(spec, ast.Tuple) else [spec]
+    return None
 
 
 def declared_elem_class(program: Program, owner: ClassInfo, attr: str) -> ClassInfo | None:
